@@ -47,5 +47,6 @@ REWRITES = [
     R("misc-reorder-funcs", ALL, "invariant", "reorder-decls", "minify.go / js.go: functions moved to the end of their file", reorder_funcs),
     R("misc-comments-everywhere", ALL, "invariant", "comments", "comments and blank lines in front of functions in five files", comments_everywhere),
     R("misc-unrelated-switch", ALL, "invariant", "add-unrelated-func", "svg: unrelated function with a tagless switch", unrelated_switch),
-    R("c16-gate-inlined", ["c16_flags"], "invariant", "inline-helper", "js: minVersion(2016) written out as `Version == 0 || 2016 <= Version`", gate_inlined, tests=["./js/..."]),
+    R("c16-gate-inlined", ["c16_flags"], "invariant", "inline-helper", "js: minVersion(2016) written out as `Version == 0 || 2016 <= Version`", gate_inlined, tests=["./js/..."],
+      known="JsVersionGates is identical; OptionSites (every read of an option field, by design of option_sites_ok) sees two more reads of Version"),
 ]
